@@ -79,6 +79,9 @@ def gen_value(rng, uid, kinds):
     if k == 'qtext':
         return k, rng.choice(["it's {}", 'say "{}"', 'a\\{}', 'line\n{}', ' {} ', '{{{}}}', '%s {}', "'{}", '# {}', '\U0001F680 {}', '{} \U0001D518\U00020000',
                               'see note({})', 'f(x) {}', 'tel(495) {}', 'a(b(c{}))', 'eval({})', '\u00e9\u0301 {}', '\ufeff{}', '{}\u2028x', 'tab\t{}', '\x7f{}', '{{titles}} {}', '{{sheets_size}}{}', '{{functions}} {}']).format(uid)
+    if k == 'eqtext':
+        # stored as TEXT although it starts with '=' (typed with a leading apostrophe): a constant, never a formula
+        return k, wbspec.TextCell(rng.choice(['=A1+{}', '=not a formula({}', '=SUM(1,{})', '={}', '==', '=eval {}', '=A1:B{}']).format(uid))
     if k == 'numtext':
         return k, f'00{uid}'
     if k == 'errtext':
@@ -93,7 +96,7 @@ def gen_value(rng, uid, kinds):
 
 
 KINDS = ['int', 'int', 'negint', 'float', 'float', 'float17', 'float17', 'intfloat', 'bool', 'text', 'text', 'qtext', 'numtext', 'errtext', 'date',
-         'datetime', 'time']
+         'datetime', 'time', 'eqtext']
 
 
 def gen_layout(rng, kind):
@@ -211,6 +214,10 @@ def same_const(got, exp):
         exp = dt.datetime(exp.year, exp.month, exp.day)
     if isinstance(exp, float) and exp == int(exp) and not isinstance(got, bool) and isinstance(got, int):
         return got == exp          # an integral float is stored as the same number; the file does not keep "1.0" vs "1"
+    if isinstance(exp, str) and isinstance(got, str):
+        # the translator may carry a text in a str subclass of its own (a marker for "stored as text"); a value handed out by a
+        # generated class is a plain str
+        return str(got) == str(exp)
     return type(got) is type(exp) and got == exp
 
 
@@ -293,7 +300,7 @@ def check_book(ctx, spec, titles, plant, probes, name, far=False):
                     e = d.get(key)
                     if isinstance(e, ArrayFormula):
                         e = e.text
-                    if e is None or not (type(v) is type(e) and v == e):
+                    if e is None or not ((type(v) is type(e) and v == e) or (isinstance(v, str) and isinstance(e, str) and str(v) == str(e))):
                         report(r, ID, None, dict(case0, sheet=si, cell=wbspec.a1(*key)), wbspec.enc(v),
                                wbspec.enc(e) if e is not None else 'blank', monitor='parse-grid')
             for key in d:
